@@ -687,6 +687,36 @@ Fixpoint render (c : ctx) (p : pz) (t : term) {struct t} : res (str * pz) :=
       end
   | TQuery q => render_query c p q
   | TSetOp base ops obs lim off alias => setop_render render_query render_sops render_obys render_o c p base ops obs lim off alias
+  (* CreateQueryBuilder.get_sql *)
+  | TCreate tbl temporary unlogged if_not_exists sysver columns period_fors uniques pk as_select =>
+      match tbl with
+      | NoT => Ok ([], p)
+      | SomeT tb =>
+        match columns, as_select with
+        | KNil, NoT => Ok ([], p)
+        | _, _ =>
+          do (st, p1) <- render c p tb;
+          let qn n := fquote (quote_char c) n in
+          let head := L "CREATE " ++ (if temporary then L "TEMPORARY " else if unlogged then L "UNLOGGED " else []) ++ L "TABLE " ++
+                      (if if_not_exists then L "IF NOT EXISTS " else []) ++ st in
+          match as_select with
+          | SomeT q => do (sq, p2) <- render c p1 q; Ok (head ++ L " AS (" ++ sq ++ L ")", p2)
+          | NoT =>
+            do (scols, p2) <- render_cols c p1 columns;
+            let clauses := scols ++
+                           map (fun '(n, a, b) => L "PERIOD FOR " ++ qn n ++ L " (" ++ qn a ++ [44] ++ qn b ++ L ")") period_fors ++
+                           map (fun u => L "UNIQUE (" ++ join [44] (map qn u) ++ L ")") uniques ++
+                           (match pk with [] => [] | _ => [L "PRIMARY KEY (" ++ join [44] (map qn pk) ++ L ")"] end) in
+            Ok (head ++ L " (" ++ join [44] clauses ++ L ")" ++ (if sysver then L " WITH SYSTEM VERSIONING" else []), p2)
+          end
+        end
+      end
+  (* DropQueryBuilder.get_sql *)
+  | TDrop tbl if_exists =>
+      match tbl with
+      | NoT => Ok ([], p)
+      | SomeT tb => do (st, p1) <- render c p tb; Ok (L "DROP TABLE " ++ (if if_exists then L "IF EXISTS " else []) ++ st, p1)
+      end
   end
 
 with render_o (c : ctx) (p : pz) (o : oterm) {struct o} : res (option str * pz) :=
@@ -807,6 +837,19 @@ with render_ctes (c : ctx) (p : pz) (l : ctes) {struct l} : res (list str * pz) 
       do (sq, p2) <- render (set_with_alias false (set_subquery false c)) p1 q;
       do (ss, p3) <- render_ctes c p2 r;
       Ok ((name ++ (match st with [] => [] | _ => paren (join [44] st) end) ++ L " AS (" ++ sq ++ L ") ") :: ss, p3)
+  end
+
+(* Column.get_sql for each column *)
+with render_cols (c : ctx) (p : pz) (l : cols) {struct l} : res (list str * pz) :=
+  match l with
+  | KNil => Ok ([], p)
+  | KCons name ty nullable default r =>
+      do (od, p1) <- render_o c p default;
+      let s := fquote (quote_char c) name ++
+               (match ty with Some (x :: xs) => [32] ++ (x :: xs) | _ => [] end) ++
+               (match nullable with Some true => L " NULL" | Some false => L " NOT NULL" | None => [] end) ++
+               (match od with Some d => L " DEFAULT " ++ d | None => [] end) in
+      do (ss, p2) <- render_cols c p1 r; Ok (s :: ss, p2)
   end
 
 with render_gbys (c : ctx) (p : pz) (l : gbys) {struct l} : res (list str * pz) :=
